@@ -93,7 +93,7 @@ CLAIMED = {
             '_rename/_add, any_edit_session_keeps_validate_passing (states added without initial/memory); still_a_tree_after_* / any_edit_session_keeps_the_tree / '
             'built_charts_are_trees (the parent relation stays acyclic: move_state re-hangs a subtree outside itself because descendants_for is complete on a '
             'consistent acyclic chart); remove_state_removes_exactly_the_subtree (the states outside the subtree of n keep their parents, the transitions '
-            'outside it stay in order, everything else is gone). ' + TIE, '§6 C16'),
+            'outside it stay in order, everything else is gone); edited_well_formed_statecharts_stay_sound (all of it at once for any edit session of a well-formed chart). ' + TIE, '§6 C16'),
     'C17': ('Lean 4 proof: rename substitutes exactly the transition ends, keeps internal transitions internal, is atomic + guest/copy correspondence',
             'rename_substitutes_transition_ends, rename_keeps_internal, rename_to_itself, rename_atomic; rename_is_substitution (the renamed chart is '
             'the chart with the name substituted everywhere, up to declaration order) and renamed_behaves_as_substituted (by C07: same runs); '
